@@ -47,6 +47,19 @@ def sweep (lo hi : Nat) : String := Id.run do
       if afisafiBytes Gen.afisafiPairs x != some (be16 a ++ [UInt8.ofNat s]) then bytesFail := bytesFail + 1
   return s!"named={named} roundtrip_fail={rtFail} bytes_fail={bytesFail}"
 
+def handleDetails (c s : String) : String :=
+    match c.toNat?, s.toNat? with
+    | some c, some s =>
+      if c ≥ 256 ∨ s ≥ 256 then "bad-op" else
+      match details ecTable Gen.detailsArms c s with
+      | none => "none"
+      | some d =>
+        let raw := match detailsRaw ecTable Gen.rawArms d with
+          | some (a, b) => s!"{a} {b}"
+          | none => "none"
+        s!"{Gen.detailsVariants.getD d.variant "?"} {raw}"
+    | _, _ => "bad-op"
+
 def handle (ws : List String) : String :=
   match ws with
   | ["te", nm, n] =>
@@ -87,17 +100,12 @@ def handle (ws : List String) : String :=
     match n.toNat? with
     | some k => tryFrom Gen.segtypeVariants Gen.segtypeFrom Gen.segtypeTo k
     | none => "bad-op"
-  | ["details", c, s] =>
-    match c.toNat?, s.toNat? with
-    | some c, some s =>
-      match details ecTable Gen.detailsArms c s with
-      | none => "none"
-      | some d =>
-        let raw := match detailsRaw ecTable Gen.rawArms d with
-          | some (a, b) => s!"{a} {b}"
-          | none => "none"
-        s!"{Gen.detailsVariants.getD d.variant "?"} {raw}"
-    | _, _ => "bad-op"
+  | ["details", c, s, d] =>
+    -- a NOTIFICATION carrying data: the data does not take part in details()/raw()
+    match bytesOfHex d with
+    | some dd => if dd.length > 4000 then "bad-op" else handleDetails c s
+    | none => "bad-op"
+  | ["details", c, s] => handleDetails c s
   | _ => "bad-op"
 
 end Rc.Drv.C18
